@@ -93,7 +93,7 @@ func checkLeaf(c *tls.Certificate, host string, pool *x509.CertPool) string {
 }
 
 var sub = ev.Register("cert-histories",
-	"histories over 1-3 CONNECT targets (DNS names of 1-6 labels in mixed case with digits, hyphens and xn-- labels, IPv4, bracketed IPv6, any port) of issue / concurrent burst of n <= 16 first requests for one host / crowd of n <= 16 concurrent first requests for n different new hosts (names, addresses or alternating; 3 rounds) / expiry injected by hook H5 by a drawn margin, against a fresh CA loaded through certs.NewPrivateCA; oracle (crypto/x509): every returned leaf chains to the CA for exactly that host, is inside its validity, has SANs = {host}, matches its private key; two issues without an expiry between return the same certificate; after an expiry a new valid leaf is returned and then reused; after a burst every returned leaf is valid and later calls return one certificate; in a crowd every host gets a leaf valid for itself, also from the cache afterwards; non-trivial = history has a reuse and an expiry or burst; distinct by (host kinds, history shape)",
+	"histories over 1-3 CONNECT targets (DNS names of 1-6 labels in mixed case with digits, hyphens and xn-- labels, IPv4, bracketed IPv6, any port) of issue / concurrent burst of n <= 16 first requests for one host / crowd of n <= 16 concurrent first requests for n different new hosts (names, addresses or alternating; 3 rounds) / expiry injected by hook H5 by a drawn margin (0 s to a year, on both sides of the 240 h certificate lifetime), against a fresh CA loaded through certs.NewPrivateCA; oracle (crypto/x509): every returned leaf chains to the CA for exactly that host, is inside its validity, has SANs = {host}, matches its private key; two issues without an expiry between return the same certificate; after an expiry a new valid leaf is returned and then reused; after a burst every returned leaf is valid and later calls return one certificate; in a crowd every host gets a leaf valid for itself, also from the cache afterwards; non-trivial = history has a reuse and an expiry or burst; distinct by (host kinds, history shape)",
 	func(h Hist, o *ev.Obs) *ev.Failure {
 		dir, err := os.MkdirTemp("", "verif-c11-")
 		if err != nil {
@@ -287,7 +287,7 @@ func drawHist(t *rapid.T) Hist {
 				st.Kind, st.AgoS = "crowd", rapid.IntRange(0, 2).Draw(t, "crowd-kind")
 			}
 		default:
-			st.Kind, st.AgoS = "expire", rapid.SampledFrom([]int{0, 1, 60, 3600, 864000}).Draw(t, "ago")
+			st.Kind, st.AgoS = "expire", rapid.SampledFrom([]int{0, 1, 60, 3600, 864000, 864001, 1000000, 2592000, 5184000, 31536000}).Draw(t, "ago")
 		}
 		h.Steps = append(h.Steps, st)
 	}
